@@ -273,7 +273,7 @@ Proof. vm_compute. eexists. split; reflexivity. Qed.
 (** an answer to an unknown exchange is dropped without a trace *)
 Example C10_ex_unknown :
   let s := run false (sys_init 0) [LAddSession 1 true false] in
-  step false s (LRx (mkMsg 1 true false 5 77 false OpOrdinary true None)) =
+  step false s (LRx (mkMsg 1 true false false 5 77 false OpOrdinary true None)) =
   Some (mkSys (upd_sid (sessions s) 0 (fun se => set_win se (mkRx true 5 0))) RxEmpty [] 0 1, []).
 Proof. vm_compute. reflexivity. Qed.
 
@@ -281,7 +281,7 @@ Proof. vm_compute. reflexivity. Qed.
     group session without leaving an acknowledgement behind; nobody accepts it, the
     accept timeout drops it, the closer frees it silently and the session goes with it *)
 Example C10_ex_group_unaccepted :
-  let m := mkMsg 9 true true 1 30 true OpOrdinary true None in
+  let m := mkMsg 9 true true false 1 30 true OpOrdinary true None in
   let s := run false (sys_init 0) [LRx m; LTick 1000; LSweepAccept] in
   (exists se, sessions s = [se] /\ s_group se = true) /\
   exists s', step false s LCloseDropped = Some (s', []) /\ sessions s' = [].
@@ -289,13 +289,13 @@ Proof. vm_compute. split; [eexists; split; reflexivity|]. eexists. split; reflex
 
 (** a handler receives the group message and drops its exchange: session gone at once *)
 Example C10_ex_group_dropped :
-  let m := mkMsg 9 true true 1 30 true OpOrdinary false None in
+  let m := mkMsg 9 true true false 1 30 true OpOrdinary false None in
   sessions (run false (sys_init 0) [LRx m; LAccept; LRecv 0 0; LRxDone 0 0; LDropExch 0 0]) = [].
 Proof. vm_compute. reflexivity. Qed.
 
 (** a peer's CloseSession on an exchange id nobody knows removes the session *)
 Example C10_ex_peer_close :
   let s := run false (sys_init 0) [LAddSession 1 true false] in
-  exists s', step false s (LRx (mkMsg 1 true false 5 999 true OpScClose false None)) =
+  exists s', step false s (LRx (mkMsg 1 true false false 5 999 true OpScClose false None)) =
              Some (s', [EvPeerClosed 0]) /\ sessions s' = [].
 Proof. vm_compute. eexists. split; reflexivity. Qed.
